@@ -994,6 +994,10 @@ impl LineBuf {
 			.filter(|ch| *ch == '\n')
 			.count() + 1
 	}
+	/// The number of lines in the buffer. The text after a final newline is not a line; an empty buffer has one (empty) line.
+	pub fn line_count(&self) -> usize {
+		self.buffer.lines().count().max(1)
+	}
 	pub fn cursor_line_number(&mut self) -> usize {
 		self.slice_to_cursor()
 			.map(|slice| {
@@ -2695,10 +2699,17 @@ impl LineBuf {
 				} else {
 					self.end_of_line()
 				};
-				if self.grapheme_at(pos) == Some("\n") {
-					// If we are at the end of the line, we want to go back one
-					// So we don't land on the newline
-					MotionKind::On(pos.saturating_sub(1))
+				// 'pos' is the exclusive end of the line: its newline, if it has one, sits just before
+				if pos > 0 && self.grapheme_at(pos - 1) == Some("\n") {
+					let newline = pos - 1;
+					if verb.is_some() {
+						// Operators and 'A' work up to the newline
+						MotionKind::On(newline)
+					} else {
+						// A plain '$' lands on the last character, not on the newline (unless the line is empty)
+						let line_start = self.line_bounds(self.index_line_number(newline)).map(|(start,_)| start).unwrap_or(0);
+						MotionKind::On(newline.saturating_sub(1).max(line_start))
+					}
 				} else {
 					MotionKind::On(pos)
 				}
